@@ -261,6 +261,14 @@ func (g *gen) govOp() CStep {
 	if r.Chance(0.1) {
 		st.Role = []string{"outsider", "chainadmin", "govadmin"}[r.Intn(3)]
 	}
+	switch r.Intn(10) {
+	case 0, 1:
+		// lifecycle of a governance administrator: the electorate of open proposals changes
+		st.Obj, st.Act, st.Role = "role", []string{"freeze", "freeze", "activate", "activate", "logout"}[r.Intn(5)], "govadmin"
+	case 2:
+		// a service blocks / unblocks a source
+		st.Obj, st.Act, st.Role = "service", "block", "chainadmin"
+	}
 	if g.cfg.Late && r.Chance(0.25) {
 		// submit the registration of the chain's late service (again, if it was submitted before)
 		st.Obj, st.Act, st.B, st.Role = "service", "register", g.cfg.Services, "chainadmin"
